@@ -71,3 +71,36 @@ Lemma src_all_initialised_at_finish d0 ops c rest :
   s_ctxs s = c :: rest -> c_frames c = [] -> (c_phase c = Ending [] \/ c_phase c = Processing) ->
   forall x, In x (c_objs c) -> In x (inited (s_log s)).
 Proof. apply all_initialised_at_finish. Qed.
+
+From TxV Require Import Proofs.UserClsAccessProofs.
+
+Lemma src_has_set : In n_setattr replace_names. Proof. apply mem_str_In. vm_compute. reflexivity. Qed.
+Lemma src_has_get : In n_getattribute replace_names. Proof. apply mem_str_In. vm_compute. reflexivity. Qed.
+Lemma src_has_del : In n_delattr replace_names. Proof. apply mem_str_In. vm_compute. reflexivity. Qed.
+
+Lemma src_own_accessors_act d0 ops x hit :
+  (forall a, d0 a <> TxFn) ->
+  let k := s_cls (src_run (init d0) ops) in
+  stored k x = false ->
+  acting_set k x = of_slot (d0 n_setattr) /\
+  acting_get k x hit = of_slot (d0 n_getattribute) /\
+  acting_del k x hit = of_slot (d0 n_delattr).
+Proof.
+  intros H. apply (own_accessors_act replace_names restore_names src_rep_nodup src_rep_in_res d0 H ops x hit
+                     src_has_set src_has_get src_has_del).
+Qed.
+
+Lemma src_storage_acts d0 ops x :
+  (forall a, d0 a <> TxFn) ->
+  let k := s_cls (src_run (init d0) ops) in
+  stored k x = true -> k_count k <> 0 ->
+  acting_set k x = ToStorage /\ acting_get k x true = ToStorage /\ acting_del k x true = ToStorage /\
+  acting_get k x false = ToBase.
+Proof.
+  intros H. apply (storage_acts replace_names restore_names src_rep_nodup src_rep_in_res d0 ops x
+                     src_has_set src_has_get src_has_del).
+Qed.
+
+Lemma src_other_methods_untouched d0 ops a :
+  ~ In a replace_names -> k_dict (s_cls (src_run (init d0) ops)) a = d0 a.
+Proof. apply (other_methods_untouched replace_names restore_names src_rep_nodup src_rep_in_res). Qed.
